@@ -218,7 +218,8 @@ func (e *Engine) buildSMT(ob *Obligation) string {
 		asserts = append(asserts, a)
 	}
 	goal := Not(ob.Goal)
-	if !ob.Cover {
+	if !ob.Cover && !ob.Goal.IsFalse() {
+		// (a goal `false` - unreachability - has no symbols to start the cone of influence from)
 		asserts = relevant(asserts, goal)
 	}
 	all := append(append([]*Term{}, asserts...), goal)
